@@ -16,6 +16,9 @@ pub(crate) struct XmlSerializer<'a, N: Normalizer> {
     parameters: TokenSerializeParameters,
     // elements for which we had to write an extra xmlns="" (see StartTagOpen)
     undeclared_default: Vec<Node>,
+    // the top element, if the default namespace it would inherit has to be
+    // left out
+    skip_inherited_default: Option<Node>,
 }
 
 impl<'a, N: Normalizer> XmlSerializer<'a, N> {
@@ -25,7 +28,23 @@ impl<'a, N: Normalizer> XmlSerializer<'a, N> {
         parameters: TokenSerializeParameters,
         normalizer: N,
     ) -> Self {
-        let extra_declarations = xot.namespaces_in_scope(node).collect();
+        // If we serialize an element in no namespace by itself, it should not
+        // inherit a default namespace from its ancestors
+        let skip_inherited_default = match xot.element(node) {
+            Some(element)
+                if xot.namespace_for_name(element.name()) == xot.no_namespace()
+                    && !xot.namespaces(node).contains_key(xot.empty_prefix()) =>
+            {
+                Some(node)
+            }
+            _ => None,
+        };
+        let extra_declarations = xot
+            .namespaces_in_scope(node)
+            .filter(|(prefix, _)| {
+                skip_inherited_default.is_none() || *prefix != xot.empty_prefix()
+            })
+            .collect();
         let fullname_serializer = FullnameSerializer::new(xot, extra_declarations);
         Self {
             xot,
@@ -33,6 +52,7 @@ impl<'a, N: Normalizer> XmlSerializer<'a, N> {
             normalizer,
             parameters,
             undeclared_default: Vec::new(),
+            skip_inherited_default,
         }
     }
 
@@ -159,8 +179,13 @@ impl<'a, N: Normalizer> XmlSerializer<'a, N> {
                 r
             }
             Prefix(prefix_id, namespace_id) => {
-                // we don't want to output the xml prefix
-                if *namespace_id == self.xot.xml_namespace() {
+                // we don't want to output the xml prefix, nor an inherited
+                // default namespace for a top element that is in no namespace
+                if *namespace_id == self.xot.xml_namespace()
+                    || (self.skip_inherited_default == Some(node)
+                        && *prefix_id == self.xot.empty_prefix()
+                        && !self.xot.namespaces(node).contains_key(*prefix_id))
+                {
                     return Ok(OutputToken {
                         space: false,
                         text: "".to_string(),
